@@ -344,6 +344,34 @@ def rule_search(prog, rep):
                 rep.instance("C21.SEARCH", "%s: loop at bb%d is left early only with an error" % ("::".join(f.name.split("::")[-2:]), h))
     if not n:
         raise AnchorError("no Result<(), CycleError<_>> search function with a loop found")
+    # the `already traversed, no cycle found then` memo of such a search is only valid for the root
+    # it was started from (the search reports cycles *through its root* only): every call from
+    # outside the recursion must hand it a set created empty for that call
+    cg = prog.callgraph()
+    for f in sorted(prog.fns.values(), key=lambda g: g.name):
+        out = f.d.get("sig_out") or ""
+        if f.crate != "apollo_compiler" or "CycleError<" not in out or not out.startswith("std::result::Result<()"):
+            continue
+        memo_params = [i for i, t in enumerate(f.d.get("sig_in") or []) if re.search(r"^&mut .*(HashSet|IndexSet|BTreeSet)<", t or "")]
+        if not memo_params:
+            continue
+        same_scc = prog.reachable([f])
+        for g in prog.fns.values():
+            if g.crate != "apollo_compiler" or g.uid == f.uid:
+                continue
+            for c in g.live_calls():
+                if c.uid != f.uid:
+                    continue
+                if g.uid in same_scc and f.uid in prog.reachable([g]):
+                    continue  # a recursive call passes the memo on
+                for i in memo_params:
+                    a = g.sym(c.args[i])
+                    fresh = re.match(r"^&(mut )?(<[^()]*>::default|[\w:<>, ]*(HashSet|IndexSet|BTreeSet)[\w:<>, ]*::(new|default|with_hasher|with_capacity_and_hasher))\(", a) is not None
+                    if fresh:
+                        rep.instance("C21.SEARCH", "%s: the visited-set of %s starts empty for every root" % (g.name.split("::")[-1], f.name.split("::")[-1]))
+                    else:
+                        rep.finding("C21.SEARCH", g.name, "stale-memo:" + f.name.split("::")[-1],
+                                    "%s is started with the visited-set `%s`, which outlives the call: fragments marked `traversed, no cycle` for an earlier root are skipped for this root, but the search only reports cycles through its own root - a cycle first reached through an acyclic entry is never reported" % (f.name.split("::")[-1], a[:80]), c.loc())
 
 
 def run(prog, rep):
